@@ -226,6 +226,34 @@ func checkC11(c *Ctx) {
 		}
 		c.check(okO, "C11-ORD", n, "order restored from the key list", f.Pos(), "SetHashKeyOrder is applied when a key list was found", "field order is not restored from zKeyOrder")
 	}
+	// ---- C11-MSGP: the msgpack encoder is fed only what the JSON decoder produced (one normalisation for both formats)
+	if gtm := c.fn("GoToMsgpack"); gtm != nil {
+		jtg := c.fn("JsonToGo")
+		n := 0
+		for _, f := range c.zygoFuncs() {
+			for _, ci := range callsOf(f, gtm) {
+				n++
+				arg := ci.Common().Args[0]
+				okArg := false
+				if jtg != nil {
+					for _, leaf := range phiLeaves(arg) {
+						if ex, ok := leaf.(*ssa.Extract); ok && ex.Index == 0 {
+							if call, ok := ex.Tuple.(*ssa.Call); ok && call.Call.StaticCallee() == jtg {
+								okArg = true
+							}
+						}
+					}
+				}
+				c.check(okArg, "C11-MSGP", fnName(f), "msgpack encodes the JSON-normalised value", ci.Pos(),
+					"GoToMsgpack receives the result of JsonToGo: both formats carry the same normalised data (nil, records, key order)",
+					"GoToMsgpack is handed a Go value that did not come from JsonToGo: values the JSON printer normalises (nil, records with their reserved keys, raw bytes) are encoded in whatever form the other converter leaves them, e.g. nil as the Go struct {Val:0}")
+			}
+		}
+		if n == 0 {
+			c.undecided("C11-MSGP", "GoToMsgpack", "callers", token.NoPos, "no caller of the msgpack encoder found")
+		}
+	}
+
 	// ---- C11-OWN: encoded bytes handed to the caller are not a view into a buffer that the next encoding reuses
 	{
 		n := 0
